@@ -63,7 +63,7 @@ func init() {
 	boundedByProp["C14"] = append(boundedByProp["C14"], boundedSpec{ID: "big-conversions", Name: "executed clauses of Int, Rat, SetInt, SetRat against math/big",
 		File: "c14_big_test.go.txt", Run: "TestVerifBoundedC14$", Marker: "C14BIG",
 		Bounds: "integers of 1..1160 decimal digits at every word boundary (-1, 0, +1, +2, +9, +18 digits), four digit patterns, both signs, with and without a two-digit fraction; SetRat of (10^d+7)/den for seven d and seven denominators at four precisions; size sweep of the float64 length estimates: SetInt then Int at every bit length 1..6000 (thorough 1..40000) with 2^n-1 and 2^(n-1), Int at every digit count 1..1600 (thorough 1..12000) with 10^d-1 and 10^(d-1)",
-		Stands: []string{"decToNat (assumed)", "setNat.ensures[complete], [size] (assumed: destination long enough)", "values of Int, Rat, SetRat through math/big"}, Env: map[string][2]string{"VERIF_C14_REPS": {"4", "40"}}, Timeout: "900s"})
+		Stands: []string{"decToNat.ensures[complete] and the assumed range of its float64 size estimate (the rest of decToNat is proved)", "setNat.ensures[complete], [size] (assumed: destination long enough)", "values of Int, Rat, SetRat through math/big"}, Env: map[string][2]string{"VERIF_C14_REPS": {"4", "40"}}, Timeout: "900s"})
 	boundedByProp["C03"] = append(boundedByProp["C03"], boundedSpec{ID: "fma-product-range", Name: "FMA with a product outside the exponent range (class excluded by requires[prodrange])",
 		File: "c03_fma_range_test.go.txt", Run: "TestVerifBoundedC03$", Marker: "C03FMA",
 		Bounds: "two members of the excluded class (underflowing and overflowing exact product) x three precisions x six modes, against the same operation with the product inside the range",
